@@ -135,3 +135,27 @@ PROPS["C20"] = {
                 "tiers": {"quick": T(6000, 2, timeout=300), "thorough": T(200000, 4, timeout=3000)}},
     },
 }
+
+PROPS["C18"] = {
+    "level": "exploration",
+    "technique": "model-based property testing against a label-wise reference matcher; generated API histories with restarts; generated concurrent writers with failpoint-driven schedule perturbation; fault/crash injection at every persistence step (verif failpoints)",
+    "level_text": ("Generated plain/wildcard/whitelist sets (label-boundary near-misses, mixed case, with/without trailing dot) and probe names are judged by a reference matcher over label slices, through Exists and through ServeDNS (null routes, empty authoritative answer, downstream untouched); "
+                   "API histories with restarts, concurrent Set/Remove/SetBatch/RemoveBatch writers and a crash or write fault at each of the five persistence steps must leave the local file a complete snapshot and converge file == memory == reload. Exploration; crash points are enumerated per history by generation, not exhaustively."),
+    "level_note": "Trusted: the reference matcher; rename is assumed atomic and durable; failpoints can interrupt between syscalls only (no torn writes). Entry keys are LDH/underscore names (the hosts-format file cannot represent whitespace or '#').",
+    "rule": ("evaluations = probe lookups (match) or histories (persist/concurrent/crash). Non-trivial = probe matched by a rule other than 'none' or a not-prefixed near-miss; every persist history; concurrent runs with >=2 writers; "
+             "crash histories where the interrupted call really changed the list; distinct = hash(rule, set sizes, op kinds, crash point)."),
+    "assumptions": ["root '.' is not used as a list entry", "hostile API keys (whitespace, '#') are outside the generated domain"],
+    "units": {
+        "match": {"pkg": "./middleware/blocklist", "run": "^TestVerifC18Match$",
+                  "tiers": {"quick": T(1200, 4, timeout=400), "thorough": T(40000, 8, timeout=3000)},
+                  "floors": {"C18.match": {"plain-parent": 0.05, "wild-parent": 0.03, "whitelisted": 0.02, "plain-exact": 0.05}}},
+        "persist_seq": {"pkg": "./middleware/blocklist", "run": "^TestVerifC18PersistSeq$",
+                        "tiers": {"quick": T(300, 4, timeout=400), "thorough": T(8000, 8, timeout=3000)},
+                        "floors": {"C18.persist_seq": {"restart": 0.2}}},
+        "concurrent": {"pkg": "./middleware/blocklist", "run": "^TestVerifC18Concurrent$", "race": True,
+                       "tiers": {"quick": T(150, 4, timeout=400), "thorough": T(4000, 8, timeout=3000)}},
+        "crash": {"pkg": "./middleware/blocklist", "run": "^TestVerifC18Crash$",
+                  "tiers": {"quick": T(300, 4, timeout=400), "thorough": T(8000, 8, timeout=3000)},
+                  "floors": {"C18.crash": {"interrupted-real-mutation": 0.2}}},
+    },
+}
